@@ -29,10 +29,10 @@ NEIGHBOUR_KINDS = [
     "levels.digits", "meas_pt.tiny", "domain.tiny", "z.tiny", "profiles.tiny", "profiles.elem", "z.elem", "halo.tiny", "srf_bg_conc.tiny",
     # representations of the same values (results identical; exercises effectiveness)
     "levels.asarray", "repr.np", "repr.int",
-    "srf_flx.transpose", "levels.samelen",
+    "srf_flx.transpose", "levels.samelen", "repr.strided",
 ]
 KIND_TO_PARAM = {k: k.split(".")[0] for k in NEIGHBOUR_KINDS}
-SAME_RESULT_KINDS = {"levels.asarray", "repr.np", "repr.int", "srf_flx.values"}
+SAME_RESULT_KINDS = {"levels.asarray", "repr.np", "repr.int", "srf_flx.values", "repr.strided"}
 
 
 def signature_params():
@@ -157,6 +157,13 @@ def _build_args(spec):
         z = z.copy()
         k = 1 + ei % (len(z) - 2)
         z[k] = z[k] + f * (z[k + 1] - z[k])  # stays strictly between its neighbours
+    if spec.get("strided"):
+        # the same values as strided (non-contiguous) views, e.g. columns of a table
+        def strided(p):
+            big = np.zeros(2 * len(p), dtype=p.dtype)
+            big[::2] = p
+            return big[::2]
+        prof = [strided(p) for p in prof]
     levels = spec["levels"]
     if isinstance(levels, dict):  # {"array": [...]} -> ndarray levels
         levels = np.array(levels["array"], dtype=np.int64)
@@ -341,6 +348,8 @@ def neighbour(spec, kind, rng):
         s["repr"] = None if spec.get("repr") == "np" else "np"
     elif kind == "repr.int":
         s["repr"] = None if spec.get("repr") == "int" else "int"
+    elif kind == "repr.strided":
+        s["strided"] = not spec.get("strided", False)
     else:
         raise ValueError(kind)
     if canon(s) == canon(spec):
@@ -357,7 +366,7 @@ def diff_params(a, b):
         "V": "profiles", "K": "profiles", "prof_scale": "profiles", "domain": "domain",
         "levels": "levels", "modes": "modes", "meas_pt": "meas_pt", "bg": "srf_bg_conc",
         "footprint": "footprint", "analytic": "analytic", "halo": "halo", "precision": "precision",
-        "prof_elem": "profiles", "z_elem": "z", "repr": "representation",
+        "prof_elem": "profiles", "z_elem": "z", "repr": "representation", "strided": "representation",
     }
     for k in set(a) | set(b):
         if a.get(k) != b.get(k):
